@@ -108,7 +108,8 @@ Theorem C10_attempts_success_runs_connect_handlers : forall p evs i o r race id,
   In (FTaskEnd id Reconnected) e ->
   (forall n, In n (cns st) -> In (FHandler HConnect n None) e) /\
   attempt_ok (args st) (cns st) o = true /\
-  tasks st' = [] /\ rtask st' = None /\ rcl st' = 0 /\ (race = false -> connected st' = true).
+  tasks st' = [] /\ rtask st' = None /\ rcl st' = 0 /\ (race = false -> connected st' = true) /\
+  connected st = false /\ est st = EDisc.
 Proof. exact success_runs_connect_handlers. Qed.
 Print Assumptions C10_attempts_success_runs_connect_handlers.
 
@@ -234,3 +235,20 @@ Theorem C10_retries_no_loss_inside_attempt_without_switch : forall p evs i o r,
   ~ In FLost (snd (step p (final p evs) (Timeout i o r false))).
 Proof. exact no_loss_inside_timeout_without_race. Qed.
 Print Assumptions C10_retries_no_loss_inside_attempt_without_switch.
+
+(* ---------------- a reconnection starts fresh ---------------- *)
+(* self.callbacks (pending ACK callbacks and the per-namespace id generator) is empty whenever the
+   transport is not connected; every accidental loss empties it; after a successful reconnection
+   an ACK for any id invokes nothing and the first emit with a callback carries id 1 *)
+Theorem C10_reconnect_resets_callbacks : forall p evs,
+  let st := final p evs in
+  (est st = EDisc -> cbs st = [] /\ nss st = []) /\
+  (forall r, est st = EConn -> cbs (fst (step p st (Loss r))) = []) /\
+  (forall i o r id,
+     let '(st', e) := step p st (Timeout i o r false) in
+     In (FTaskEnd id Reconnected) e ->
+     cbs st' = [] /\
+     (forall n aid, snd (step p st' (ServerAck n aid)) = []) /\
+     (forall n, In n (cns st) -> snd (step p st' (EmitCb n)) = [FSendEvent n 1; FEmit true])).
+Proof. exact reconnect_resets_callbacks. Qed.
+Print Assumptions C10_reconnect_resets_callbacks.
